@@ -37,10 +37,10 @@ def parseFlt (s : String) : Option Flt :=
   if s == "nan" then some .nan
   else if s == "+inf" then some (.inf false)
   else if s == "-inf" then some (.inf true)
-  else match s.splitOn "/" with
-    | [n, d] => do
-      let n ← n.toInt?; let d ← d.toNat?
-      if d == 0 then none else pure (.fin n d)
+  else match s.splitOn "p" with
+    | [m, e] => do
+      let m ← m.toInt?; let e ← e.toInt?
+      if e ≥ 0 then pure (.fin (m * 2 ^ e.toNat) 1) else pure (.fin m (2 ^ (-e).toNat))
     | _ => none
 
 /-- scalar token (no parentheses inside) -/
@@ -144,11 +144,21 @@ def tokBig (i : Int) : String :=
     s!"B:{sign}:{bl}:{natHex (a >>> (bl - 64))}:{natHex (a % 2 ^ 64)}"
   else s!"b:{i}"
 
+/-- strip common / trailing factors of two: the harness' canonical `m p e` form (m odd) -/
+def stripTwos (fuel : Nat) (m : Int) (e : Int) : Int × Int :=
+  match fuel with
+  | 0 => (m, e)
+  | fuel + 1 => if m != 0 && m % 2 == 0 then stripTwos fuel (m / 2) (e + 1) else (m, e)
+
 def tokFlt : Flt → String
   | .nan => "f:nan"
   | .inf false => "f:+inf"
   | .inf true => "f:-inf"
-  | .fin n d => s!"f:{n}/{d}"
+  | .fin n d =>
+    if n == 0 then "f:0p0" else
+    -- d is a power of two (every float64 is m * 2^e)
+    let (m, e) := stripTwos (Nat.log2 n.natAbs + 1) n (-(Nat.log2 d : Int))
+    s!"f:{m}p{e}"
 
 def tokJV : JV → String
   | .null => "null"
@@ -247,8 +257,12 @@ def predToBits (c opts : JV) : Pred :=
   | some o =>
     match convertible c with
     | some false => exactCls "err"
-    | some true => if o.unit == 0 then exactCls "panic" else noPanic
-    | none => if o.unit == 0 then { classes := ["err", "panic"] } else noPanic
+    | _ =>
+      -- an array may still fail on a member: an error either way
+      match toBits 24 o with
+      | .err _ => exactCls "err"
+      | .panic _ => if convertible c == none then { classes := ["err", "panic"] } else exactCls "panic"
+      | _ => noPanic
 
 /-- `tobits($pad)` / `tobytes($pad)` = `_tobits({unit: 1|8, keep_range: false, pad_to_units: $pad})` -/
 def predToBitsPad (c pad : JV) : Pred :=
@@ -291,7 +305,8 @@ def predToXML (c opts : JV) : Pred :=
       | .resource _ => exactCls "resource"
       | .ok _ => noPanic
 
-def predToJSON (opts : JV) : Pred := indentErrOr 0 opts (fun i => decide (i > maxIndent))
+def predToJSON (opts : JV) : Pred :=
+  indentErrOr 0 opts (fun i => match toJSON i 1 with | .err _ => true | _ => false)
 def predToYAML (opts : JV) : Pred :=
   match castIndentOpts 4 opts with
   | none => exactCls "err"
@@ -394,24 +409,10 @@ def valueAgrees (p : Pred) (want got : String) : Bool :=
     | _, _ => false
   else false
 
-/-- known defect classes (known_findings.json): exactly these, nothing wider -/
-def knownClass (fn : String) (vs : List JV) (obs : String) : Option String :=
-  let w := (words obs).headD ""
-  if fn == "_tobits/1" && w == "panic:pkg/interp.(*Interp)._toBits" then
-    match vs with
-    | [_, o] => match castToBitsOpts o with
-      | some ⟨0, _⟩ => some "tobits-unit-zero"
-      | _ => none
-    | _ => none
-  else if (fn == "protobuf_widevine/0" || fn == "protobuf_widevine/1" || fn == "from_protobuf_widevine/0"
-        || fn == "from_protobuf_widevine/1") && w == "resource:mem" then some "protobuf-seek0-loop"
-  else if (fn == "tojson/1" || fn == "_to_json/1") && w == "resource:mem" then
-    match vs with
-    | [_, o] => match castIndentOpts 0 o with
-      | some i => if i < 0 then some "tojson-negative-indent-wrap" else none
-      | none => none
-    | _ => none
-  else none
+/-- known defect classes (known_findings.json, status "known"): exactly these, nothing wider.
+    (tobits-unit-zero, tojson-negative-indent-wrap and protobuf-seek0-loop were found by this check
+    and have been fixed in /repo: they are violations again if they return.) -/
+def knownClass (_fn : String) (_vs : List JV) (_obs : String) : Option String := none
 
 def hasHugeString (toks : List String) : Bool := toks.any (·.startsWith "S:")
 
@@ -432,7 +433,9 @@ def callVerdict (fn : String) (toks : List String) (obs : String) : String :=
           if !(p.classes.contains c) then
             -- a slow evaluation of something the model answers instantly is tolerated only for
             -- the 1 MiB string and for skipped cases
-            if c == "resource" && !(p.classes.contains "panic") && (hasHugeString toks || obs == "resource:skipped") then ""
+            -- … and for results of more than 2048 bits (a 256 MiB shift on a loaded machine)
+            let hugeResult := match p.value with | some v => v.startsWith "B:" | none => false
+            if c == "resource" && !(p.classes.contains "panic") && (hasHugeString toks || obs == "resource:skipped" || hugeResult) then ""
             else s!" ;DIVERGE model={" ".intercalate p.classes}{match p.value with | some v => " " ++ v | none => ""}"
           else match p.value, c with
             | some want, "ok" =>
@@ -487,8 +490,8 @@ def optsVerdict (tok obs : String) : String :=
         match (words obs).filterMap (fun w => match w.splitOn "=" with | [k, n] => n.toInt?.map (fun i => (k, i)) | _ => none) with
         | kvs =>
           let get (k : String) : Int := ((kvs.find? (·.1 == k)).map (·.2)).getD (-1)
-          !(dump ⟨get "depth", get "array_truncate", get "string_truncate", get "line_bytes",
-            get "display_bytes", get "addrbase", get "sizebase"⟩ 12345).isPanic
+          (dump ⟨get "depth", get "array_truncate", get "string_truncate", get "line_bytes",
+            get "display_bytes", get "addrbase", get "sizebase"⟩ 12345).noFault
           && decide (get "depth" ≥ 0) && decide (get "array_truncate" ≥ 0) && decide (get "string_truncate" ≥ 0)
           && decide (get "display_bytes" ≥ 0)
       if !safe then s!"PROPFAIL options-not-clamped {obs}"
